@@ -259,6 +259,11 @@ func splitBody(body string, want func(i int) bool) (string, int) {
 			braces = append(braces, !isHash)
 			if !isHash {
 				blockDepth++
+				if strings.TrimSpace(body[i+1:]) != "" {
+					// a block WRITTEN INSIDE the tag (`if (c) { return a } else { return b }`): its statements
+					// are on the tag's line only as long as nothing before them is moved to another line
+					return body, 0
+				}
 			}
 		case '}':
 			if len(braces) > 0 {
@@ -1887,15 +1892,25 @@ func (g *gen) tolerantPiece(depth int) {
 		f := g.fresh("tf")
 		g.tag("<%", "let "+f+" = fn() { return zz }", "%>")
 		g.nl()
-		switch g.intn("tolfn", 0, 2) {
+		switch g.intn("tolfn", 0, 5) {
 		case 0:
 			g.tag("<%=", "if ("+f+"()) {", "%>")
 			g.cur.write("*")
 			g.tag("<%", "}", "%>")
 		case 1:
 			g.tag("<%", "let "+g.fresh("tv")+" = !"+f+"()", "%>")
-		default:
+		case 2:
 			g.tag("<%=", f+"() == nil", "%>")
+		case 3:
+			// ... and something that can fail LATER IN THE SAME TAG
+			g.frames = 0
+			g.tag("<%=", "["+f+"() == nil, "+g.maybeProbe(g.rawExpr(kInt, 1, "array-element"), kInt, "array-element", true)+"]", "%>")
+		case 4:
+			g.frames = 0
+			g.tag("<%=", "!"+f+"() && "+g.maybeProbe("b1", kBool, "infix-right:&&", true), "%>")
+		default:
+			g.frames = 0
+			g.tag("<%=", "if ("+f+"()) { return 1 } else { return "+g.maybeProbe("n1", kInt, "return-value", true)+" }", "%>")
 		}
 		return
 	}
